@@ -16,7 +16,8 @@ RULE = ("Case = one random history of 25-120 valid API operations (about 70 oper
         "compared before/after and against the shadow model.  Distinct by (set of entity kinds present, set of "
         "operation kinds executed, reopen modes used); trivial = histories with fewer than 5 executed operations.  Plus a fixed grid (32 cases): every numeric "
         "attribute (ticks, position, extent, coefficients, origin, offset, interval, uncertainty) x {absent, set at creation} x "
-        "{whole numbers then fractions, fractions then whole numbers}, read back through three handles and after reopening.")
+        "{whole numbers then fractions, fractions then whole numbers}, read back through three handles and after reopening.  Data frames carry a row model (cell writes, "
+        "row and column appends, and two-handle sequences in which one handle changes the table's structure and the other writes).")
 ASSUMPTIONS = ["only valid calls are issued (refused calls are C12's business); a history in which a valid call raises is kept for the differential oracle but its model comparison is dropped (counted)",
                "names are drawn from a pool without UUID-looking names (those are C03's subject)",
                "timestamps come from a logical clock installed over nixio.util.now_int"]
